@@ -28,3 +28,6 @@ Definition store_run_eqb : list ans -> list ans -> bool := list_eqb ans_eqb.
 (* the specification is executable as well: the implementation is compared with it directly, too *)
 From ZV Require Import StoreSpec.
 Definition store_spec_run (ops : list op) : list ans := arun ast_init ops.
+
+From ZV Require Import MemStore.
+Definition mem_run_run (ops : list mop) : list ans := mrun mst_init ops.
